@@ -757,7 +757,13 @@ def run_plan(plan, trace=False):
                 fc += "+eof"
             if dmg == text:
                 continue
-            _judge(res, name, fmt, entry, text, dmg, fc, section, f"faults {case['faults']} (line {f0['line']}: {lines[f0['line']].rstrip()!r})")
+            # a lost or repeated line INSIDE an attribute record is visible to a reader (the record announces how many lines
+            # follow): there the optional content counts
+            strict_ = f0["kind"] in ("drop_line", "dup_line") and section.endswith((":rec", ":attr")) and len(case["faults"]) == 1
+            if strict_:
+                res.stats["probe:line_fault_inside_attribute_record"] += 1
+            _judge(res, name, fmt, entry, text, dmg, fc, section.split(":rec")[0].split(":attr")[0],
+                   f"faults {case['faults']} (line {f0['line']}: {lines[f0['line']].rstrip()!r})", strict_optional=strict_)
             res.keys.append(f"{name}|{entry}|{digest(dmg)}")
         res.sample = {"mode": "struct", "cases": plan["cases"][:3]}
         trace_lines.append(f"structural faults: {plan['cases']}")
